@@ -25,6 +25,15 @@ statement only, never from `_depends`):
   one), every declaration order: each call of an assigning method is one assignment that every
   dependent method must see exactly once, `on_init` adds exactly one call;
 
+* fault / history family (section "fault / history family" below): a watcher that RAISES during an
+  assignment / update / batch (a `watch='queued'` or `watch=True` depends method, a queued or plain
+  `param.watch` callback; the caller catches the exception) and dependencies changed inside
+  `param.discard_events(obj)` (also nested in a batch) -- the operations that follow must invoke
+  every depends(watch=True) method exactly once iff one of ITS dependencies changed (nothing is
+  demanded for the raising / discarding step itself beyond "not more often than normally");
+* sub-object family: a method depending on parameters of sub-objects ('s.x', 'r.x', next to a direct
+  parameter) under update / batch that replace the sub-objects: one call per update / batch.
+
 Lenient readings (never demand more than the statement):
 
 * a method hit by n >= 2 separate assignments made by other methods inside ONE top-level step
@@ -86,6 +95,25 @@ OP_CLASS = {'sa': 'set', 'sa=': 'set-same', 'sb': 'set', 'sv': 'set', 'sp': 'slo
             'bab': 'batch', 'b==': 'batch-same', 'bap': 'batch-mixed'}
 
 
+# fault / history operations (never part of the seeded permutations above; see "fault / history family")
+#   d*: the assignments are made inside `with param.discard_events(o)`; bd*: ... nested in a batch that
+#   also assigns the other parameter outside the discarding block;  x*: made while the raiser is armed
+HF_DISCARD = ['da', 'db', 'dab', 'dp', 'bda', 'bdb']
+HF_RAISE = ['xs', 'xu', 'xbt']           # armed: set of the raiser's own dependency / update(a, b) / batch(a, b)
+for _op, _ch in (('da', {('value', 'a')}), ('db', {('value', 'b')}), ('dab', {('value', 'a'), ('value', 'b')}),
+                 ('dp', {('bounds', 'p')}), ('bda', {('value', 'a'), ('value', 'b')}),
+                 ('bdb', {('value', 'a'), ('value', 'b')}),
+                 ('xsa', {('value', 'a')}), ('xsb', {('value', 'b')}),
+                 ('xu', {('value', 'a'), ('value', 'b')}), ('xbt', {('value', 'a'), ('value', 'b')})):
+    OP_CHANGES[_op] = _ch
+    OP_CLASS[_op] = 'discard' if _op[0] in 'db' else 'raise'
+HF_OPS = set(HF_DISCARD) | {'xsa', 'xsb', 'xu', 'xbt'}
+ALL_OPS = OPS + HF_DISCARD + ['xsa', 'xsb', 'xu', 'xbt']
+HF_RAISERS = [(k, d) for k in ('mq', 'mw', 'wq', 'wn') for d in ('a', 'b')]
+#   mq / mw: a third method  @param.depends(d, watch='queued' / True)  def mr(self): raises when armed
+#   wq / wn: o.param.watch(callback, [d], queued=True / False), the callback raises when armed
+
+
 def family_spec(shape, m1, m2, ov):
     """m1 = (deps, on_init); m2 = None | (deps, on_init); ov = {cls: (kind_m1, kind_m2)}.
     Returns {cls: {'m1': None | ('dec', deps, on_init) | ('undec',), 'm2': ...}}"""
@@ -132,11 +160,14 @@ def family_key(shape, m1, m2, ov):
 # ------------------------------------------------------------------------------------------
 # source text of a family (used both to build the real classes and in replay scripts)
 # ------------------------------------------------------------------------------------------
-def family_source(shape, spec):
+def family_source(shape, spec, raiser=None):
     out = ["import logging, warnings", "import param",
            "warnings.simplefilter('ignore')",
            "param.parameterized.get_logger().setLevel(logging.CRITICAL)",
            "LOG = []"]
+    if raiser is not None:
+        out += ["ARM = [False]", "class Boom(Exception):", "    pass",
+                "def RCB(*events):", "    if ARM[0]:", "        raise Boom('the watcher raises')"]
     for i, (cname, bases) in enumerate(SHAPES[shape]):
         root = not bases
         out.append("class %s(%s):" % (cname, ', '.join(bases) if bases else 'param.Parameterized'))
@@ -154,6 +185,9 @@ def family_source(shape, spec):
             elif d[0] == 'decnw':
                 body.append("@param.depends(%s)" % ', '.join(repr(x) for x in d[1]))
             body.append("def %s(self): LOG.append('%s.%s')" % (mname, cname, mname))
+        if root and raiser is not None and raiser[0] in ('mq', 'mw'):
+            body.append("@param.depends(%r, watch=%s)" % (raiser[1], "'queued'" if raiser[0] == 'mq' else 'True'))
+            body.append("def mr(self): RCB()")
         if not body:
             body = ["pass"]
         out += ["    " + b for b in body]
@@ -164,6 +198,23 @@ def op_source(op, n):
     """python statements performing op number n (n makes fresh values) on object `o`."""
     fresh, fresh2 = 100 + 2 * n, 101 + 2 * n
     fb = "(0, %d)" % (20 + n)
+    if op in HF_OPS:
+        body = {'da': ["o.a = %d" % fresh], 'db': ["o.b = %d" % fresh],
+                'dab': ["o.a = %d" % fresh, "o.b = %d" % fresh2], 'dp': ["o.param.p.bounds = %s" % fb],
+                'xsa': ["o.a = %d" % fresh], 'xsb': ["o.b = %d" % fresh],
+                'xu': ["o.param.update(a=%d, b=%d)" % (fresh, fresh2)],
+                'xbt': ["with param.parameterized.batch_call_watchers(o):",
+                        "    o.a = %d" % fresh, "    o.b = %d" % fresh2]}
+        if op in ('bda', 'bdb'):
+            inner, outer = ('a', 'b') if op == 'bda' else ('b', 'a')
+            return ["with param.parameterized.batch_call_watchers(o):",
+                    "    with param.parameterized.discard_events(o):",
+                    "        o.%s = %d" % (inner, fresh),
+                    "    o.%s = %d" % (outer, fresh2)]
+        if op[0] == 'd':
+            return ["with param.parameterized.discard_events(o):"] + ["    " + b for b in body[op]]
+        return ["ARM[0] = True", "try:"] + ["    " + b for b in body[op]] + \
+            ["except Boom:", "    pass", "finally:", "    ARM[0] = False"]
     return {
         'sa': ["o.a = %d" % fresh],
         'sa=': ["o.a = o.a"],
@@ -282,7 +333,7 @@ def expected_calls(shape, spec, cname, op):
         site = '%s.%s' % (c, mname)
         if hit:
             kinds = {w for w, _ in hit}
-            exp[site] = (1, len(kinds))
+            exp[site] = (0 if op in HF_OPS else 1, len(kinds))
         elif fuzzy and changed:
             exp[site] = (0, len({w for w, _ in changed}))
         else:
@@ -341,7 +392,12 @@ def run_family(task):
     _silence()
     spec = family_spec(shape, m1, m2, ov)
     fkey = family_key(shape, m1, m2, ov)
-    src = family_source(shape, spec)
+    hf = progspec[0] == 'hf'          # fault / history family: ('hf', programs, raiser or None)
+    raiser = progspec[2] if hf else None
+    if hf:
+        fkey += ' raiser=%s' % (':'.join(raiser) if raiser else '-')
+    clause_d = HF_CLAUSE if hf else 'C06/dispatch/invocations == [changed & deps(resolved method) != {}]'
+    src = family_source(shape, spec, raiser)
     ns = {}
     exec(compile(src, '<family>', 'exec'), ns)
     LOG = ns['LOG']
@@ -368,6 +424,8 @@ def run_family(task):
                 keys.append('%s cls=%s ctor=%d prog=%s' % (fkey, cname, ctor_kw, ','.join(prog)))
                 del LOG[:]
                 o = K(a=7, b=8) if ctor_kw else K()
+                if raiser is not None and raiser[0] in ('wq', 'wn'):
+                    o.param.watch(ns['RCB'], [raiser[1]], queued=raiser[0] == 'wq')
                 bad = compare(LOG, expected_init(shape, spec, cname))
                 chk('C06/__init__/on_init calls == 1 iff on_init')
                 for (site, g, lo, hi) in bad:
@@ -375,7 +433,7 @@ def run_family(task):
                                       prog=(), step=-1, op='init', site=site, got=g, lo=lo, hi=hi))
                 if ctor_kw:
                     prog = prog[:4]
-                env = {'o': o, 'param': ns['param']}
+                env = {'o': o, 'param': ns['param'], 'ARM': ns.get('ARM'), 'Boom': ns.get('Boom')}
                 for i, op in enumerate(prog):
                     del LOG[:]
                     exec(op_code(op, i), env)
@@ -383,11 +441,13 @@ def run_family(task):
                     if exp is None:
                         exp = expcache[(cname, op)] = expected_calls(shape, spec, cname, op)
                     bad = compare(LOG, exp)
-                    chk('C06/dispatch/invocations == [changed & deps(resolved method) != {}]')
+                    chk(clause_d)
                     for (site, g, lo, hi) in bad:
                         viols.append(dict(shape=shape, m1=m1, m2=m2, ov=ov, cls=cname, ctor=ctor_kw,
                                           prog=tuple(prog[:i + 1]), step=i, op=op, site=site,
-                                          got=g, lo=lo, hi=hi))
+                                          got=g, lo=lo, hi=hi, hf=hf, raiser=raiser))
+                    if bad and hf:
+                        break       # the first failing step of a fault history is the finding
                 # classify via-method discrepancies (needs the live object)
                 for v in viols:
                     if v.get('_done'):
@@ -486,6 +546,94 @@ def run_fn_chunk(tasks):
                 break
         out.append((n, viol))
     return out
+
+
+# ------------------------------------------------------------------------------------------
+# sub-object family: a method depending on parameters of sub-objects, under update / batch
+# ------------------------------------------------------------------------------------------
+# class A: a (Integer), s, r (sub-objects of class L with an Integer x); one method m1 with
+# watch=True over SF_DEPSETS.  An operation changes a set of dependency specs ('a', 's.x', 'r.x': the
+# value reached through the spec differs before / after the operation); the statement demands
+# exactly one call of m1 for an assignment / update / batch that changes >= 1 of its dependencies and
+# none otherwise.  Every batched assignment is made on the object the batch belongs to.
+SF_DEPSETS = [('s.x',), ('s.x', 'r.x'), ('a', 's.x')]
+SF_OPS = ['rs', 'rs=', 'ls', 'rr', 'sa', 'usr', 'us=r', 'uas', 'bss', 'bsr', 'bas', 'b==']
+SF_CHANGES = {'rs': {'s.x'}, 'rs=': set(), 'ls': {'s.x'}, 'rr': {'r.x'}, 'sa': {'a'},
+              'usr': {'s.x', 'r.x'}, 'us=r': {'r.x'}, 'uas': {'a', 's.x'},
+              'bss': {'s.x'}, 'bsr': {'s.x', 'r.x'}, 'bas': {'a', 's.x'}, 'b==': set()}
+# witness class of an operation: what one update / batch assigns
+SF_SHAPE = {'usr': 'slots', 'us=r': 'slots', 'bsr': 'slots', 'b==': 'slots', 'bss': 'repeat',
+            'uas': 'direct+slot', 'bas': 'direct+slot'}
+
+
+def sf_source(deps):
+    return '\n'.join([
+        "import logging, warnings", "import param", "warnings.simplefilter('ignore')",
+        "param.parameterized.get_logger().setLevel(logging.CRITICAL)", "LOG = []",
+        "class L(param.Parameterized):", "    x = param.Integer(0)",
+        "class A(param.Parameterized):", "    a = param.Integer(0)",
+        "    s = param.Parameter(None)", "    r = param.Parameter(None)",
+        "    @param.depends(%s, watch=True)" % ', '.join(repr(d) for d in deps),
+        "    def m1(self): LOG.append('A.m1')",
+        "o = A(s=L(), r=L())", ""])
+
+
+def sf_op_source(op, n):
+    f1, f2 = 100 + 2 * n, 101 + 2 * n
+    bat = "with param.parameterized.batch_call_watchers(o):"
+    return {'rs': ["o.s = L(x=%d)" % f1], 'rs=': ["o.s = L(x=o.s.x)"], 'ls': ["o.s.x = %d" % f1],
+            'rr': ["o.r = L(x=%d)" % f1], 'sa': ["o.a = %d" % f1],
+            'usr': ["o.param.update(s=L(x=%d), r=L(x=%d))" % (f1, f2)],
+            'us=r': ["o.param.update(s=o.s, r=L(x=%d))" % f1],
+            'uas': ["o.param.update(a=%d, s=L(x=%d))" % (f1, f2)],
+            'bss': [bat, "    o.s = L(x=%d)" % f1, "    o.s = L(x=%d)" % f2],
+            'bsr': [bat, "    o.s = L(x=%d)" % f1, "    o.r = L(x=%d)" % f2],
+            'bas': [bat, "    o.a = %d" % f1, "    o.s = L(x=%d)" % f2],
+            'b==': [bat, "    o.s = L(x=o.s.x)", "    o.r = L(x=o.r.x)"]}[op]
+
+
+_SF_CODE = {}
+
+
+def run_sf_chunk(tasks):
+    _silence()
+    out = []
+    for deps, prog in tasks:
+        ns = {}
+        exec(compile(sf_source(deps), '<sf>', 'exec'), ns)
+        LOG = ns['LOG']
+        viol = None
+        n = 0
+        for i, op in enumerate(prog):
+            del LOG[:]
+            c = _SF_CODE.get((op, i))
+            if c is None:
+                c = _SF_CODE[(op, i)] = compile('\n'.join(sf_op_source(op, i)), '<op>', 'exec')
+            exec(c, ns)
+            n += 1
+            want = 1 if set(deps) & SF_CHANGES[op] else 0
+            if len(LOG) != want:
+                viol = dict(deps=deps, prog=tuple(prog[:i + 1]), op=op, got=len(LOG), want=want)
+                break
+        out.append((n, viol))
+    return out
+
+
+SF_CLAUSE = 'C06/dispatch/sub-object dependencies: invocations == [changed & deps != {}]'
+SF_CLAUSE_V = 'C06/dispatch/sub-object dependencies: invocations==deps'
+
+
+def sf_replay(v, clause, witness):
+    src = REPLAY_HEADER.format(prop='C06', name='replay_c06.py', clause=clause, witness=witness)
+    src += sf_source(v['deps'])
+    for i, op in enumerate(v['prog']):
+        if i == len(v['prog']) - 1:
+            src += "del LOG[:]\n"
+        src += '\n'.join(sf_op_source(op, i)) + '\n'
+    src += "n = len(LOG)\nif n != %d:\n" % v['want']
+    src += "    print('REPRODUCED: A.m1 called %%d times, expected %d' %% n)\n    sys.exit(1)\n" % v['want']
+    src += "print('NOT-REPRODUCED')\n"
+    return src
 
 
 # ------------------------------------------------------------------------------------------
@@ -883,6 +1031,13 @@ def viol_class(v):
         kind = 'spurious'
     else:
         kind = 'multiple'
+    hops = [o for o in v['prog'] if o in HF_OPS]
+    if v.get('hf') and hops:
+        # fault / history family: one class per (kind of history operation, kind of raiser, kind,
+        # failing AT the raising / discarding step or AFTER it)
+        hop = hops[0]
+        return HF_CLAUSE_V, 'history=%s raiser=%s kind=%s when=%s' % (
+            OP_CLASS[hop], v['raiser'][0] if v['raiser'] else '-', kind, 'at' if v['op'] in HF_OPS else 'after')
     c, d = resolved(shape, spec, v['cls'], mname)
     stale = v['site'] != '%s.%s' % (c, mname)
     via = bool(v.get('via'))
@@ -903,6 +1058,8 @@ def viol_class(v):
 def witness_of(v):
     clause, wclass = viol_class(v)
     fk = family_key(v['shape'], v['m1'], v['m2'], v['ov'])
+    if v.get('hf') and v['op'] != 'init':
+        fk += ' raiser=%s' % (':'.join(v['raiser']) if v['raiser'] else '-')
     w = '%s method=%s cls=%s ctor_kwargs=%d prog=%s got=%d want=%s | %s' % (
         wclass, v['site'].split('.')[1], v['cls'], v['ctor'], ','.join(v['prog']) or '-', v['got'],
         ('%d' % v['lo']) if v['lo'] == v['hi'] else '%d..%d' % (v['lo'], v['hi']),
@@ -915,14 +1072,15 @@ def rep_sortkey(v):
     w = family_weight(fam)
     return (w, M1_DEPS.index(v['m1'][0]), -1 if v['m2'] is None else M2_DEPS.index(v['m2'][0]),
             family_key(*fam), v['cls'], v['ctor'], len(v['prog']),
-            OPS.index(v['op']) if v['op'] in OPS else -1, v['prog'])
+            ALL_OPS.index(v['op']) if v['op'] in ALL_OPS else -1, v['prog'],
+            HF_RAISERS.index(v['raiser']) if v.get('raiser') else -1)
 
 
 def minimise(v):
     """canonical shortest program showing the same discrepancy: the first operation (in the order
     of OPS) that fails alone on a fresh, keyword-less instance of the same class (run in this
     process; the stand-alone replay confirms it afterwards)."""
-    if v['op'] == 'init':
+    if v['op'] == 'init' or v.get('hf'):
         return v
     task = (v['shape'], v['m1'], v['m2'], v['ov'], ('progs', [(op,) for op in OPS]))
     try:
@@ -939,8 +1097,10 @@ def minimise(v):
 def replay_of(v, clause, witness):
     spec = family_spec(v['shape'], v['m1'], v['m2'], v['ov'])
     src = REPLAY_HEADER.format(prop='C06', name='replay_c06.py', clause=clause, witness=witness)
-    src += family_source(v['shape'], spec)
+    src += family_source(v['shape'], spec, v.get('raiser'))
     src += "o = %s(%s)\n" % (v['cls'], 'a=7, b=8' if v['ctor'] else '')
+    if v.get('raiser') and v['raiser'][0] in ('wq', 'wn'):
+        src += "o.param.watch(RCB, [%r], queued=%r)\n" % (v['raiser'][1], v['raiser'][0] == 'wq')
     if v['op'] == 'init':
         src += "n = LOG.count(%r)\n" % v['site']
     else:
@@ -970,6 +1130,42 @@ def fn_replay(v, clause, witness):
     return src
 
 
+HF_CLAUSE = 'C06/dispatch/after a raising watcher or discarded events: invocations == [changed & deps != {}]'
+HF_CLAUSE_V = 'C06/dispatch/after a raising watcher or discarded events: invocations==deps(resolved method)'
+
+
+HF_CORE = ['sa', 'sb', 'uab', 'ub', 'bab']
+
+
+def hf_tasks(tier, seed):
+    """fault / history family: class A and (thorough: every family, quick: every fourth) B(A) overriding
+    m1 with the same decoration, over every base dependency configuration without on_init; for every
+    history operation h (6 discarding operations; for each of the 8 raisers its 3 armed operations) the
+    programs  h ; f  for EVERY operation f (quick: for the armed update / batch only 5 core operations f)
+    and  h ; f ; g  (all f, g) /  f ; h ; g  (5 core operations f, all g)  (thorough: all; quick: a seeded
+    sample of 4 per h)."""
+    rnd = random.Random(77 + seed)
+    tasks = []
+    hsets = [(None, HF_DISCARD)] + [(r, ['xs' + r[1], 'xu', 'xbt']) for r in HF_RAISERS]
+    nfam = 0
+    for m1, m2 in base_configs():
+        if m1[1] or (m2 and m2[1]):
+            continue
+        nfam += 1
+        for raiser, hops in hsets:
+            progs = []
+            for h in hops:
+                fs = OPS if (tier == 'thorough' or h[:2] in ('xs', 'da', 'db', 'dp', 'bd')) else HF_CORE
+                progs += [(h, f) for f in fs]
+                long_ = [(h, f, g) for f in OPS for g in OPS] + [(f, h, g) for f in HF_CORE for g in OPS]
+                progs += long_ if tier == 'thorough' else rnd.sample(long_, 4)
+            if tier == 'thorough' or nfam % 4 == seed % 4:
+                tasks.append(('chain2', m1, m2, {'B': ('same', '-')}, ('hf', progs, raiser)))
+            else:
+                tasks.append(('chain1', m1, m2, {}, ('hf', progs, raiser)))
+    return tasks
+
+
 MAX_PER_CLAUSE = 12  # witness classes reported per clause (smallest first); the rest is counted in a note
 CONFIRM = True      # scratch mutation harnesses (in-memory patches) switch the confirmation off
 
@@ -978,6 +1174,9 @@ def confirm(src):
     """run a replay script stand-alone; True iff it reproduces"""
     if not CONFIRM:
         return True
+    repo = os.environ.get('PYVC_REPO', '/repo')
+    if repo != '/repo':     # checking a scratch copy of the library: confirm against that copy
+        src = src.replace("sys.path.insert(0, '/repo')", "sys.path.insert(0, %r)" % repo)
     with tempfile.NamedTemporaryFile('w', suffix='.py', delete=False) as f:
         f.write(src)
         path = f.name
@@ -1009,17 +1208,27 @@ def _run(tier, seed):
               "EVERY declaration order x placement of each method {A, B, A overridden in B decorated / "
               "undecorated}; construction and 4 operations are compared with: every call of an assigning "
               "method is one assignment seen exactly once by each dependent method, on_init adds exactly one "
-              "call. A case = (family, class, constructor form, program); distinct by that tuple"),
+              "call. Fault / history family: classes A, B(A) x base dependency sets x {a `watch='queued'` / "
+              "watch=True depends method or a queued / plain param.watch callback on a or b that RAISES during a "
+              "set / update / batch (caught by the caller); assignments inside param.discard_events(o), also "
+              "nested in a batch} followed (and preceded) by every operation: each later step is compared "
+              "exactly, the raising / discarding step only from above. Sub-object family: a method depending "
+              "on 's.x' / 's.x','r.x' / 'a','s.x' under all programs of replace / leaf set / update / batch "
+              "(two slots, one slot twice, direct parameter + slot): one call per update / batch. "
+              "A case = (family, class, constructor form, program); distinct by that tuple"),
         bound=("<= 4 classes, <= 2 dependent methods, dependency sets over 2 parameters + 'p:bounds' + "
                "method-on-method; programs: 13-operation permutation + programs <= 3 (sampled), all "
                "programs <= %d over 9 operations on the 1-2 class core; function form all programs <= %d "
                "over 10 operations; _parse_dependency_spec: all specs of <= 3 segments; assigning methods: "
-               "<= 3 methods, 2 classes, assignment chains of length <= 2, all %d families%s"
-               % ((3, 3, len(af_families(tier)), '') if tier == 'thorough' else
-                  (2, 2, len(af_families(tier)), ' (without constructor keywords)'))))
+               "<= 3 methods, 2 classes, assignment chains of length <= 2, all %d families%s; fault / "
+               "history family: 1 raising or discarding step + <= 2 operations (quick: + 1, and a sample of 2); "
+               "sub-object family: all programs <= %d over 12 operations"
+               % ((3, 3, len(af_families(tier)), '', 3) if tier == 'thorough' else
+                  (2, 2, len(af_families(tier)), ' (without constructor keywords)', 2))))
     _silence()
     tasks, exhaustive, counts = enumerate_tasks(tier, seed)
     tasks += program_tasks(tier)
+    tasks += hf_tasks(tier, seed)
     B.exhaustive = exhaustive
     if not exhaustive:
         B.note("families explored / size of the full override product per shape: %s; incomplete shapes = "
@@ -1034,6 +1243,10 @@ def _run(tier, seed):
         fprogs = [p for n in range(1, L + 1) for p in itertools.product(FN_OPS, repeat=n)]
         ftasks = [(d[0], p) for d in FN_DEPSETS for p in fprogs]
         fut_n = [ex.submit(run_fn_chunk, ftasks[i::32]) for i in range(32)]
+        # sub-object family
+        sprogs = [p for n in range(1, L + 1) for p in itertools.product(SF_OPS, repeat=n)]
+        stasks = [(d, p) for d in SF_DEPSETS for p in sprogs]
+        fut_s = [ex.submit(run_sf_chunk, stasks[i::16]) for i in range(16)]
         # assigning methods (on_init method whose body assigns a parameter other methods depend on)
         afams = af_families(tier)
         actors = (False, True) if tier == 'thorough' else (False,)
@@ -1060,6 +1273,13 @@ def _run(tier, seed):
                 B.checked('C06/function form/invocations == [changed & deps != {}]', n)
                 if viol:
                     fnv.append(viol)
+        sfv = []
+        for fu, i in zip(fut_s, range(16)):
+            for (n, viol), (deps, prog) in zip(fu.result(), stasks[i::16]):
+                B.case(key='subobject deps=%s prog=%s' % ('+'.join(deps), ','.join(prog)))
+                B.checked(SF_CLAUSE, n)
+                if viol:
+                    sfv.append(viol)
     check_parse(B)
 
     # ---- representatives
@@ -1090,6 +1310,17 @@ def _run(tier, seed):
             rep['label'], k[1], ','.join(rep['prog']), rep['got'], rep['want'])
         reports.append((clause, witness, fn_replay(rep, clause, witness), len(vs),
                         'f called %d times, expected %d' % (rep['got'], rep['want'])))
+    sgroups = {}
+    for v in sfv:
+        sgroups.setdefault((SF_SHAPE.get(v['op'], 'single'), 'missed' if v['got'] < v['want'] else
+                            ('spurious' if v['want'] == 0 else 'multiple')), []).append(v)
+    for k in sorted(sgroups):
+        vs = sgroups[k]
+        rep = min(vs, key=lambda v: (len(v['prog']), SF_DEPSETS.index(v['deps']), [SF_OPS.index(o) for o in v['prog']]))
+        witness = 'form=subobject shape=%s kind=%s deps=%s prog=%s got=%d want=%d' % (
+            k[0], k[1], '+'.join(rep['deps']), ','.join(rep['prog']), rep['got'], rep['want'])
+        reports.append((SF_CLAUSE_V, witness, sf_replay(rep, SF_CLAUSE_V, witness), len(vs),
+                        'A.m1 called %d times, expected %d' % (rep['got'], rep['want'])))
     agroups = {}
     for v in afv:
         agroups.setdefault(af_class(v), []).append(v)
